@@ -41,8 +41,9 @@ TLayout ==
 \* commits of writers returned: the store grew under the open iterator (CesiumIter!GrowTo)
 TGrow ==
   /\ More /\ E.ev = "grow"
-  /\ LET keep == \/ run = "first" /\ ReadIn(E.stored, bounds[1], view[2]) = acc
-                  \/ run = "last" /\ ReadIn(E.stored, view[1], bounds[2]) = acc
+  /\ LET keep == /\ ~(last \in {"afwd", "abwd"} /\ ~valid)   \* an automatic traversal that had ended is over
+                  /\ \/ (run = "first" /\ ReadIn(E.stored, bounds[1], view[2]) = acc)
+                     \/ (run = "last" /\ ReadIn(E.stored, view[1], bounds[2]) = acc)
      IN /\ run' = IF keep THEN run ELSE "off"
         /\ acc' = IF keep THEN acc ELSE <<>>
   /\ stored' = E.stored
